@@ -65,14 +65,17 @@ Line(n, e) ==
                     parse_ok |-> Parse(post.raw).ok])
         /\ (canonLineage /\ Parse(post.raw).ok) =>
               Require(PaddingZero(post.raw, Parse(post.raw)) /\ IsCanonical(post.raw), n, "not-canonical",
-                      [op |-> op.op, why |-> "non-zero padding or non-canonical bytes after a building operation"])
+                      [op |-> op.op, why |-> "non-zero padding or non-canonical bytes after a building operation",
+                       struct_holds_legacy_alias_0x8020 |-> \E i \in 1..Len(post.attrs) : post.attrs[i].type = 32800])
         /\ (AddLike(op) /\ Parse(post.raw).ok) =>
               Require(LastPaddingZero(post.raw, Parse(post.raw)), n, "padding-not-zero", [op |-> op.op])
         /\ Require(e.post.redec /\ e.post.equal /\ e.post.eqrev, n, "equal-disagrees",
                    [op |-> op.op, redecodes |-> e.post.redec, equal |-> e.post.equal, equal_reversed |-> e.post.eqrev,
-                    attrs |-> Len(post.attrs)])
+                    attrs |-> Len(post.attrs),
+                    struct_holds_legacy_alias_0x8020 |-> \E i \in 1..Len(post.attrs) : post.attrs[i].type = 32800])
         /\ (op.op = "encode" /\ StructMatchesWireX(pre, FALSE)) =>
-              Require(post.raw = CanonOf(pre.raw), n, "decode-then-encode-not-canonical", <<>>)
+              Require(post.raw = CanonOf(pre.raw), n, "decode-then-encode-not-canonical",
+                      [struct_holds_legacy_alias_0x8020 |-> \E i \in 1..Len(post.attrs) : post.attrs[i].type = 32800])
   \* an operation that reported an error (a refused setter) must leave a coherent message behind as well
   /\ (e.refused /\ Building(op) /\ Len(pre.raw) >= 20) =>
         /\ Require(StructMatchesWireX(post, canonLineage), n, "struct-differs-from-wire-after-refused-operation",
